@@ -172,6 +172,9 @@ func runC14(c *Ctx) {
 	c.Bound("mux", fmt.Sprintf("every ordered list (with repetition) of 0..3 handlers from the pool %q x every topic", c14Pool))
 
 	// ---- parts "valid" and "match"
+	if !mqtt.VerifHasFilter {
+		c.Note("C14: the white-box wrapper around newTopicFilter/Match does not compile against this tree; filters are compiled and matched through ServeMux.Handle / ServeMux.Serve instead")
+	}
 	var idx, nFilters, nValid, pairs int64
 	stopped := false
 	c14Strings(c14FilterAlphabet, 0, maxF, func(f string) bool {
@@ -334,29 +337,53 @@ func runC14(c *Ctx) {
 
 	if c.Shard == 0 {
 		for _, s := range [][2]string{{"a/#", "a"}, {"a/", "a"}, {"+/+", "/"}, {"a/+", "a/"}} {
-			tf, err := mqtt.VerifNewTopicFilter(s[0])
-			c.Sample(map[string]any{"part": "match", "filter": s[0], "topic": s[1], "accepted": err == nil, "library": err == nil && mqtt.VerifFilterMatch(tf, s[1]), "reference": c14Matches(s[0], s[1])})
+			tf, err, _ := c14SafeNew(s[0])
+			lib := false
+			if err == nil {
+				lib, _ = c14SafeMatch(tf, s[1])
+			}
+			c.Sample(map[string]any{"part": "match", "filter": s[0], "topic": s[1], "accepted": err == nil, "library": lib, "reference": c14Matches(s[0], s[1])})
 		}
 	}
 }
 
-func c14SafeNew(f string) (tf []string, err error, panicked string) {
+// c14Filter is one compiled filter: the library's own topicFilter through the white-box wrapper,
+// or -- when that wrapper group does not compile against the tree under check -- a ServeMux with one
+// handler (Handle compiles the filter, Serve matches it), which is the public way to the same code.
+type c14Filter struct {
+	tf  []string
+	mux *mqtt.ServeMux
+	hit bool
+}
+
+func c14SafeNew(f string) (tf *c14Filter, err error, panicked string) {
 	defer func() {
 		if r := recover(); r != nil {
 			panicked = fmt.Sprint(r)
 		}
 	}()
-	tf, err = mqtt.VerifNewTopicFilter(f)
+	tf = &c14Filter{}
+	if mqtt.VerifHasFilter {
+		tf.tf, err = mqtt.VerifNewTopicFilter(f)
+		return
+	}
+	tf.mux = &mqtt.ServeMux{}
+	err = tf.mux.Handle(f, mqtt.HandlerFunc(func(*mqtt.Message) { tf.hit = true }))
 	return
 }
 
-func c14SafeMatch(tf []string, t string) (got bool, panicked string) {
+func c14SafeMatch(tf *c14Filter, t string) (got bool, panicked string) {
 	defer func() {
 		if r := recover(); r != nil {
 			panicked = fmt.Sprint(r)
 		}
 	}()
-	return mqtt.VerifFilterMatch(tf, t), ""
+	if tf.mux == nil {
+		return mqtt.VerifFilterMatch(tf.tf, t), ""
+	}
+	tf.hit = false
+	tf.mux.Serve(&mqtt.Message{Topic: t})
+	return tf.hit, ""
 }
 
 func c14SafeServe(mux *mqtt.ServeMux, t string) (panicked string) {
